@@ -503,7 +503,10 @@ func blockKindOf(c *scCase, o scOcc) string {
 	return c.Items[it.Par-1].Op
 }
 
-func scopesStrict() bool { return os.Getenv("VERIF_C12_SCOPES") != "drift" }
+// scopesStrict: a scope-defining node without a Scopes entry is DRIFT by default -- the statement only
+// demands that recorded nodes belong to the files, not that the map is complete;
+// VERIF_C12_SCOPES=strict promotes it to a violation (the Info.Scopes doc comment's reading).
+func scopesStrict() bool { return os.Getenv("VERIF_C12_SCOPES") == "strict" }
 
 func runScopes() {
 	cases := hlib.ReadAllCases[scCase]()
